@@ -18,5 +18,12 @@ claim("C10", "SSA dominance (fd != nil before every resolver invocation), kind-s
       "Decides that undefined fields, undeclared arguments (every container kind), missing required arguments, unknown/misplaced directives on every request node kind and undefined inline type conditions cannot reach a resolver without an error being recorded. One genuine defect (named fragment on an undefined type accepted) is pinned by an existing test and listed as known finding; two were repaired.",
       TB)
 
-for p in ["C02","C03","C05","C07","C08","C10","C11","C12","C13","C14","C15","C16","C17","C18","C19","C20"]:
+claim("C02", "ordered-guard analysis of the strategy dispatch in SSA (type-assertion and nil-test facts dominating each strategy-specific call) + sibling comparison of the three invocation arms",
+      "Decides the precedence clause the statement spells out (interface resolver > root resolver > reflection, for fields and for lists) on every path, and that the three arms share one argument pipeline and one error pipeline. Equality of responses across strategies is not decided. Two genuine defects found by the sibling comparison were repaired (reflection arm bypassed the argument builder; reflection arm bypassed the error adder).",
+      TB)
+claim("C08", "SSA rules on the abstract arms of the type dispatcher (which Type value reaches the selection-set resolver, under which guard), classification of the fragment applicability tests with sibling comparison, who-may-write table for the Go type binding",
+      "Decides that the union arm dispatches by the runtime Go type to a member object and guards it against regression; reports (as known findings, feature gaps of the library) that interface-typed values are resolved against the static interface and that fragment applicability is identity-only; inline and named fragments must agree.",
+      TB)
+
+for p in ["C03","C05","C07","C08","C10","C11","C12","C13","C14","C15","C16","C17","C18","C19","C20"]:
     na(p, "rules designed (DESIGN.md section 4) but not yet implemented in the checker at this commit; will be claimed once its rule set runs clean")
